@@ -56,6 +56,9 @@ func genC12(tier string, seed int64) []core.Case {
 		if i%4 == 1 {
 			c.N["sibling"] = 1
 		}
+		if i%5 == 3 {
+			c.N["tsbase"] = int64(1 + (i/5)%5)
+		}
 		cs = append(cs, c)
 	}
 	for i := 0; i < nplain; i++ {
@@ -75,6 +78,9 @@ func genC12(tier string, seed int64) []core.Case {
 		}
 		if i%5 == 2 {
 			c.N["sibling"] = 1
+		}
+		if i%6 == 4 {
+			c.N["tsbase"] = int64(1 + (i/6)%5)
 		}
 		cs = append(cs, c)
 	}
